@@ -30,10 +30,22 @@ fn set_ref(n: N, slot: Int64, t: Option[N]) { n.e(slot) = t; }
 fn get_ref(n: N, slot: Int64): Option[N] { n.e(slot) }
 """),
     "nested": dict(
+        decl="""struct InS { r: Option[N], k: Int64 }
+struct PairS { x: Int64, inner: InS }
+class N { id: Int64, a: PairS, pay: Int64, b: (Int64, (Option[N], Float64), Float64) }
+fn mk(id: Int64, pay: Int64): N {
+  N(id = id, a = PairS(x = id, inner = InS(r = None[N], k = 3)), pay = pay, b = (id, (None[N], 0.25), 0.5))
+}
+fn set_ref(n: N, slot: Int64, t: Option[N]) {
+  if slot == 0 { n.a = PairS(x = n.id + 1, inner = InS(r = t, k = 4)); } else { n.b = (n.id + 2, (t, 2.5), 1.5); }
+}
+fn get_ref(n: N, slot: Int64): Option[N] { if slot == 0 { assert(n.a.inner.k >= 3); n.a.inner.r } else { (n.b.1).0 } }
+"""),
+    "flat": dict(
         decl="""struct PairS { x: Int64, r: Option[N] }
 class N { id: Int64, a: PairS, pay: Int64, b: (Int64, Option[N], Float64) }
 fn mk(id: Int64, pay: Int64): N { N(id = id, a = PairS(x = id, r = None[N]), pay = pay, b = (id, None[N], 0.5)) }
-fn set_ref(n: N, slot: Int64, t: Option[N]) { if slot == 0 { n.a = PairS(x = n.id + 1, r = t); } else { n.b = (n.id + 2, t, 1.5); } }
+fn set_ref(n: N, slot: Int64, t: Option[N]) { if slot == 0 { n.a.r = t; } else { n.b = (n.id + 2, t, 1.5); } }
 fn get_ref(n: N, slot: Int64): Option[N] { if slot == 0 { n.a.r } else { n.b.1 } }
 """),
     "enum": dict(
